@@ -143,7 +143,7 @@ func DNSMsg(t *rapid.T, o DNSOptions) ref.Msg {
 			r.SRV = [3]uint16{rapid.Uint16().Draw(t, l+"prio"), rapid.Uint16().Draw(t, l+"weight"), rapid.Uint16().Draw(t, l+"port")}
 			r.Target = pick(l + "srvtarget")
 		case 15: // MX
-			r.Raw = append([]byte{0, 10}, ref.EncodeName(pick(l + "mx"))...)
+			r.Raw = append([]byte{0, 10}, ref.EncodeName(pick(l+"mx"))...)
 		case 47: // NSEC: next name + type bitmap
 			r.Raw = append(ref.EncodeName(pick(l+"nsec")), 0, 4, 0x40, 0, 0, 8)
 		case 41: // OPT (owner must be root for a valid OPT; drawn either way)
@@ -319,7 +319,7 @@ func SSDPPayload(t *rapid.T) []byte {
 	var s string
 	switch rapid.IntRange(0, 6).Draw(t, "ssdpKind") {
 	case 0:
-		s = "NOTIFY * HTTP/1.1" + crlf + hdr("HOST", "239.255.255.250:1900") + hdr("CACHE-CONTROL", rapid.SampledFrom([]string{"max-age=1800", "max-age = 60", "no-cache", "max-age=", "max-age=abc=1"}).Draw(t, "cc")) +
+		s = "NOTIFY * HTTP/1.1" + crlf + hdr("HOST", "239.255.255.250:1900") + hdr("CACHE-CONTROL", ssdpCacheControl(t)) +
 			hdr("LOCATION", "http://192.168.0.5:1400/xml/device_description.xml") + hdr("NT", "upnp:rootdevice") + hdr("NTS", "ssdp:alive") + hdr("SERVER", "Linux UPnP/1.0 Sonos/63.2") + hdr("USN", "uuid:RINCON_1::upnp:rootdevice") + crlf
 	case 1:
 		s = "NOTIFY * HTTP/1.1" + crlf + hdr("HOST", "239.255.255.250:1900") + hdr("NT", "upnp:rootdevice") + hdr("NTS", rapid.SampledFrom([]string{"ssdp:byebye", "ssdp:update", ""}).Draw(t, "nts")) + hdr("USN", "uuid:x") + crlf
@@ -340,6 +340,17 @@ func SSDPPayload(t *rapid.T) []byte {
 		b = b[:rapid.IntRange(0, len(b)).Draw(t, "ssdpcutpos")]
 	}
 	return b
+}
+
+// ssdpCacheControl draws a cache-control value from its little grammar: 1..4 '='-separated tokens.
+func ssdpCacheControl(t *rapid.T) string {
+	tok := rapid.SampledFrom([]string{"max-age", "max-age", "MAX-AGE", " max-age ", "1800", "60", "0", "-1", "abc", "x", "no-cache", "", " "})
+	n := rapid.IntRange(1, 4).Draw(t, "ccTokens")
+	parts := make([]string, n)
+	for i := range parts {
+		parts[i] = tok.Draw(t, "ccTok")
+	}
+	return strings.Join(parts, "=")
 }
 
 // DHCPPayload draws a DHCP message of any of the 8 types (or none), with structured or raw options.
